@@ -1679,8 +1679,12 @@ func (c *crCase) cause(r *crRun) string {
 		}
 	}
 	switch {
-	case len(r.pre.canon) > 0 && (r.pre.hh < 0 || r.pre.app[0] == (common.Hash{})):
+	case len(r.pre.canon) > 0 && r.pre.hs == 0 && (r.pre.hh < 0 || r.pre.app[0] == (common.Hash{})):
 		return "genesis-commit-not-atomic"
+	case r.pre.hh < 0 && r.pre.hs > 0:
+		// the head pointer names a block that was never saved: left behind by a life that ran on the
+		// genesis fallback and applied a re-created block (SaveBlock skipped as "already stored")
+		return "genesis-fallback"
 	case r.fellBack:
 		return "genesis-fallback"
 	case r.pre.hh >= 0 && r.hh0 >= 0 && r.hh0 < r.pre.hh:
